@@ -68,6 +68,29 @@ CLAIMED["C15"] = {
             "None (they do not take part in any decision).",
 }
 
+CLAIMED["C17"] = {
+    "text": "The time decoder is decided per field group through the public "
+            "Time::take_from on DER built in the harness: for each group "
+            "(2-digit year + pivot, month/day in a leap and a non-leap year, "
+            "time of day, 4-digit year + 29 February, month/day of a "
+            "GeneralizedTime with the instant compared against an independent "
+            "days-from-civil computation, terminator, widths 11..17 under "
+            "both tags) all 256 values of every byte of the group are "
+            "symbolic while the other fields hold a fixed valid value. "
+            "Validity::verify_at/trim are decided for all 5-tuples of "
+            "instants in years 1..9999; serial numbers: top-bit rule, numeric "
+            "order on all pairs of 20-octet values, minimal DER form for "
+            "every serial, DER decoding for content lengths 1, 2, 20, 21 "
+            "(more in thorough), decimal parser on all 3-byte ASCII strings.",
+    "ref": "§3 C17",
+    "note": "Product decomposition of the time decoder over field groups is "
+            "a stated bound (the decoder reads the fields by independent "
+            "calls of one reader and chrono validates date and time of day "
+            "separately). Time *encoding* (core::fmt) and the decimal text "
+            "of serials above 2^32 are outside the claim; take_opt_from with "
+            "symbolic input is thorough-tier only.",
+}
+
 NOT_APPLICABLE = {
 }
 
